@@ -240,7 +240,74 @@ func c01Sweep(r *fw.RNG, g *gen.G) []*sx.N {
 	return forms
 }
 
+// c01SortStability: stable-sort over 13-60 elements that tie under the predicate while
+// being distinguishable (1 and 1.0 under <, strings of equal length under a by-length
+// predicate, with and without a key function): ties keep their input order.  The
+// expected order is computed here, independently (sort.SliceStable over the keys).
+func c01SortStability(w *fw.W, idx int) {
+	r := w.RNG(idx, "sortstab")
+	n := r.Range(13, 60)
+	type el struct {
+		src string
+		key float64
+	}
+	var els []el
+	kind := r.Intn(3)
+	for i := 0; i < n; i++ {
+		switch kind {
+		case 0: // ints and floats of equal value
+			k := r.Intn(5)
+			if r.Bool() {
+				els = append(els, el{fmt.Sprintf("%d", k), float64(k)})
+			} else {
+				els = append(els, el{fmt.Sprintf("%d.0", k), float64(k)})
+			}
+		default: // words that tie on their length
+			l := r.Range(1, 4)
+			word := ""
+			for j := 0; j < l; j++ {
+				word += string(rune('a' + r.Intn(6)))
+			}
+			els = append(els, el{fmt.Sprintf("%q", word), float64(l)})
+		}
+	}
+	var srcs []string
+	for _, e := range els {
+		srcs = append(srcs, e.src)
+	}
+	var form string
+	switch kind {
+	case 0:
+		form = fmt.Sprintf("(stable-sort < (list %s))", strings.Join(srcs, " "))
+	case 1:
+		form = fmt.Sprintf("(stable-sort (lambda (a b) (< (length a) (length b))) (list %s))", strings.Join(srcs, " "))
+	default:
+		form = fmt.Sprintf("(stable-sort < (list %s) length)", strings.Join(srcs, " "))
+	}
+	want := append([]el(nil), els...)
+	sort.SliceStable(want, func(i, j int) bool { return want[i].key < want[j].key })
+	var ws []string
+	for _, e := range want {
+		ws = append(ws, e.src)
+	}
+	src := fmt.Sprintf("(equal? %s (list %s))", form, strings.Join(ws, " "))
+	rr := rt.New(rt.Opts{MaxSteps: 400_000})
+	t := rr.Run("c01", src)
+	w.Eval(1)
+	if t.IsErr || t.Value != "true" {
+		got := rr.Run("c01", form)
+		w.Violation(fmt.Sprintf("sort-not-stable:%s", []string{"int-float-ties", "predicate-ties", "key-ties"}[kind]),
+			fmt.Sprintf("stable-sort of %d elements did not keep tied elements in input order", n), fmt.Sprintf("%s\n=> %s\nwant (list %s)", form, got.Outcome(), strings.Join(ws, " ")))
+		return
+	}
+	w.CoverKey(fmt.Sprintf("sort-stability|kind=%d|n=%d", kind, n/8))
+}
+
 func c01Run(w *fw.W, idx int) {
+	if idx%40 == 13 {
+		c01SortStability(w, idx)
+		return
+	}
 	r := w.RNG(idx, "prog")
 	prof, pname := c01Profile(r, idx)
 	g := gen.New(r, prof)
